@@ -25,6 +25,11 @@ def obligations(tier):
     for nm in ([3] if tier == "quick" else [3, 4]):
         obs.append(Ob(f"C06.route_multi.{nm}", "CH", "harness.h_chart", "route_multi", 1500, {"VF_NMULTI": nm}, funcs=(CH_ + "Chart.from_file",),
                       bounds=f"{nm} instrument sections (two instruments, several difficulties) in every relative order and 4 placements of the required sections"))
+    for p in range(8):
+        obs.append(Ob(f"C06.by_path.part{p}", "CH", "harness.h_chart", "route_by_path", 600, {"VF_NSEC": 1, "VF_NPARTS": 8, "VF_PART": p},
+                      funcs=(CH_ + "Chart.from_filepath", CH_ + "Chart.from_file"),
+                      bounds="Chart.from_filepath on a modelled file (optional UTF-8 BOM, LF/CRLF; documented open()/codec contract): same routing "
+                             "result as without the mark, 6 of the 48 section names x 6 orders x selection; replays use a real file"))
     obs.append(Ob("C06.real_parsers", "CH", "harness.h_chart", "route_real", 600, funcs=(CH_ + "Chart.from_file", "chartparse.instrument.InstrumentTrack.from_chart_lines"),
                   bounds="real section parsers on a concrete chart, symbolic header choice / order / newline style"))
     return obs
@@ -32,11 +37,12 @@ def obligations(tier):
 
 LEVEL_TEXT = ("CrossHair drives the real framing on symbolic body lines and the real Chart.from_file with recording section parsers over a "
               "symbolic choice of section names, orders, newline styles and missing sections; the header regex is decided for all strings by z3.")
-LEVEL_NOTE = ("BOM clause: only the structural fact encoding='utf-8-sig' in from_filepath is checked (file I/O codec is outside any encoding). "
+LEVEL_NOTE = ("BOM clause: decided on a *model* of the file (open()/Path.open()/Path.read_text() in text mode; codec utf-8-sig drops one leading mark, "
+              "utf-8 keeps it as U+FEFF; universal newlines) - the codec itself is CPython's and trusted; candidates are replayed on a real file. "
               "Body line equal to '{'/'}' is a delimiter, not a body line. Trusted: S1, S5, S6, str.splitlines.")
 TECHNIQUE = CH_TECH + "; z3 regex-language lemmas for the header pattern"
 ENGINE = "CH+RX"
 EXPLANATION = "see obligation_table"
 BOUNDS = "<=3 framed sections with <=2 symbolic body lines; routing: 1 (quick) / 2 (thorough) extra sections from 48 names"
-OUTSIDE = "BOM decoding by the codec; duplicate section headers; more than 2 non-required sections at once"
+OUTSIDE = "the byte-level codec (modelled by its documented contract); duplicate section headers; more than 2 non-required sections at once"
 ASSUMPTIONS = [S1, S5, S6]
